@@ -56,10 +56,23 @@ Allowed(e) ==
   LET res == [ret |-> e.r, post |-> PostOf(e), dk |-> SetOf(e.dk), dv |-> SetOf(e.dv), lk |-> SetOf(e.lk), lv |-> SetOf(e.lv)]
   IN Dict!DictAllows(TagPre(e.s, e.mode), e.n, NormOp(e.o), res)
 
+\* A call during which user code panicked (the harness injected a panic into one of its
+\* callbacks): C04 tolerates leaks and an arbitrary - but well-formed - outcome.  What must hold:
+\* nothing that is stored afterwards has been destroyed, every stored object is one that existed
+\* before or came in as an argument (no object out of thin air / from a dead slot), and the
+\* instruments saw no double destruction and no use of dead or uninitialised data.
+Havoc(e) ==
+  LET D == TagPre(e.s, e.mode)
+      post == PostOf(e) IN
+  /\ Dict!DKT(post) \cap SetOf(e.dk) = {}
+  /\ (Dict!DVT(post) \ {0}) \cap SetOf(e.dv) = {}
+  /\ \A x \in post : x.kt > 0 /\ x.vt >= 0
+
 EventOK(e) ==
   IF e.o.name = "reset" THEN TRUE        \* a new empty container (the old one was dropped: see its own event)
   ELSE /\ Untag(TagPre(e.s, e.mode)) = content                \* the call starts where the previous one ended
-       /\ WellFormedEv(e) /\ InstrumentsOK(e) /\ Allowed(e)
+       /\ WellFormedEv(e) /\ InstrumentsOK(e)
+       /\ IF e.injected THEN Havoc(e) ELSE Allowed(e)
 
 Step ==
   /\ l <= Len(Rec)
@@ -73,7 +86,8 @@ Spec == Init /\ [][Step]_vars
 Accepted ==
   IF TLCGet("stats").diameter - 1 = Len(Rec) THEN TRUE
   ELSE LET e == Rec[TLCGet("stats").diameter]
-           why == IF ~WellFormedEv(e) THEN "WF" ELSE IF ~InstrumentsOK(e) THEN "VIOL" ELSE IF ~Allowed(e) THEN "ALLOW" ELSE "CHAIN" IN
+           why == IF e.injected /\ (~WellFormedEv(e) \/ ~InstrumentsOK(e) \/ ~Havoc(e)) THEN "PANIC"
+                  ELSE IF ~WellFormedEv(e) THEN "WF" ELSE IF ~InstrumentsOK(e) THEN "VIOL" ELSE IF ~Allowed(e) THEN "ALLOW" ELSE "CHAIN" IN
        /\ PrintT(<<"REJECTED-AT", TLCGet("stats").diameter, why, e.o>>)
        /\ FALSE
 =============================================================================
